@@ -1135,6 +1135,22 @@ namespace verif
             auto i = m.find(k);
             return i == m.end() ? d : std::atol(i->second.c_str());
         }
+        std::vector<std::string> list_str(const std::string& k) const
+        {
+            std::vector<std::string> r;
+            std::string              v = s(k);
+            std::size_t              p = 0;
+            while (p < v.size())
+            {
+                auto e = v.find(',', p);
+                if (e == std::string::npos)
+                    e = v.size();
+                if (e > p)
+                    r.push_back(v.substr(p, e - p));
+                p = e + 1;
+            }
+            return r;
+        }
         std::vector<long> list(const std::string& k) const
         {
             std::vector<long> r;
@@ -1199,6 +1215,8 @@ namespace verif
         lim.max_states = std::size_t(a.n("max_states", 2000000));
         lim.deadline_s = now_s() + double(a.n("time_s", 600));
         lim.max_depth  = int(a.n("max_depth", 1 << 20));
+        for (auto m : a.list_str("own"))
+            blocking_monitors().insert(m);
         lim.snapshots  = a.n("snap", 0) != 0;
         lim.verify_every = std::size_t(a.n("verify_every", 16));
         explorer<S> e;
